@@ -33,8 +33,6 @@ package pedersen
 
 //@ func (*Parameters).WriteTo
 //@   nopanic[C05]
-//@   modifies nothing
-//@   allocates
 //@   requires w != nil && (p != nil ==> pedok(p))
 
 //@ func (Parameters).N
@@ -42,3 +40,10 @@ package pedersen
 //@   requires p.n != nil
 //@   modifies nothing
 //@   ensures result == p.n.Modulus
+
+// ---- encoder (C19, C09, C10): N, s and t, each written as a fixed-width big-endian number
+//@ func (*Parameters).WriteTo
+//@   modifies wlog(w)
+//@   ensures[C19,C10] (result1 == nil && p != nil) ==> callcount(Write) == 3
+//@   assert_at[C19,C10] FillBytes "i.FillBytes(buf)": len(arg1) == 256
+//@   loop 1: invariant callcount(Write) == rangeindex + 1 && rangeindex <= 2
